@@ -14,7 +14,7 @@ TECHNIQUE = "exhaustive enumeration of (status byte x sense x transport x call p
 RULE = ("depth 1: all 256 status bytes x {SG_IO, iSCSI} x {device.execute, SCSI.execute} x raw-sense {off,on} x (READ(10) x 5 sense buffers + 7 other commands incl. ATA PASS-THROUGH with/without CK_COND), and all 256 "
         "status bytes x both transports x each of the 38 facade methods on every command set offering it x 2 sense buffers; the same command inside `with device:` / `with SCSI(device):` blocks x 8 statuses x 6 values handed back by the binding's disconnect (the error must leave the block); histories: all "
         "sequences up to length L (3 quick, 4 thorough) over {GOOD, CHECK CONDITION, BUSY, RESERVATION CONFLICT, 7Fh} x {TEST UNIT READY, "
-        "READ(10), INQUIRY} on one device per transport, every step judged and every GOOD step's result compared with the target, once with a fresh facade call per step and once with one command object per kind submitted again at every step (retry loop); each CHECK CONDITION step carries its own distinct sense data; later steps also range over ATA PASS-THROUGH(16) facade calls (GOOD / CHECK CONDITION / transport I/O error), a refused ATA call (no block size) and a transport I/O error during TEST UNIT READY. "
+        "READ(10), INQUIRY} on one device per transport, every step judged and every GOOD step's result compared with the target, once with a fresh facade call per step and once with one command object per kind submitted again at every step (retry loop); each CHECK CONDITION step carries its own distinct sense data; later steps also range over ATA PASS-THROUGH(16) facade calls (GOOD / CHECK CONDITION / transport I/O error), a refused ATA call (no block size) and transport errors during TEST UNIT READY (EIO, ENODEV, ENODEV while the node is being replaced). "
         "states = distinct canonical device/facade snapshots reached, transitions = commands executed in histories. Non-trivial = status "
         "other than GOOD somewhere in the execution.")
 ASSUMPTIONS = [
@@ -229,14 +229,25 @@ def run_case(case, obs=None):
                     if obs is not None:
                         obs.append(snapshot(rig.dev, s))
                     continue
-                if stname == "ERR":
-                    # the binding itself fails (transport I/O error): some exception must reach the caller
-                    rig.target.script.append((OSError(5, "Input/output error"), None))
+                if stname in ("ERR", "ENODEV", "PLUGERR"):
+                    # the binding itself fails (transport I/O error): some exception must reach the caller - also when the node is
+                    # replaced at that very moment (the command was in flight when the device went away and came back)
+                    err = OSError(5, "Input/output error") if stname == "ERR" else OSError(19, "No such device")
+                    if stname == "PLUGERR" and rig.node is not None:
+                        def replug_then_fail(e=err):
+                            rig.node.plug()
+                            return e
+                        rig.target.script.append((replug_then_fail, None))
+                    else:
+                        rig.target.script.append((err, None))
                     fn = {"tur": s.testunitready, "ata": lambda: s.atapassthrough16(4, 2, 1, 1, 0, 0, 0, 1, 0, 0xEC, ck_cond=1)}[ck]
                     oc = attempt(fn)
                     if oc[0] != "exc":
                         out.append(("%s/history/transport_error_returns_normally" % tr, "step %d of %r: the binding raised OSError, the call returned normally" % (i, steps)))
                     del rig.target.script[:]
+                    if stname == "PLUGERR" and rig.node is not None:
+                        rig.target = rig.node.targets[rig.node.generation]          # the device that is behind the path from now on
+                        rig.target.disk[1] = b"\x42" * 512
                     if obs is not None:
                         obs.append(snapshot(rig.dev, s))
                     continue
@@ -358,7 +369,7 @@ def run_partition(part, tier, seed):
     else:
         mode, tr, first, fst = part
         L = bounds(tier)["history_depth"]
-        alpha = [(c, s) for c in ("tur", "read10", "inquiry") for s in HSTAT] + [("ata", "GOOD"), ("ata", "CC"), ("ata", "ERR"), ("atabad", "-"), ("tur", "ERR")]
+        alpha = [(c, s) for c in ("tur", "read10", "inquiry") for s in HSTAT] + [("ata", "GOOD"), ("ata", "CC"), ("ata", "ERR"), ("atabad", "-"), ("tur", "ERR"), ("tur", "ENODEV"), ("tur", "PLUGERR")]
         for n in range(1, L + 1):
             for rest in itertools.product(alpha, repeat=n - 1):
                 steps = [(first, fst)] + list(rest)
